@@ -16,6 +16,21 @@ Proofs_Depth.vos Proofs_Depth.vok Proofs_Depth.required_vos: Proofs_Depth.v /ver
 Proofs_Types.vo Proofs_Types.glob Proofs_Types.v.beautified Proofs_Types.required_vo: Proofs_Types.v /verif/coq/Base.vo /verif/coq/Layout.vo /verif/coq/LayoutInd.vo /verif/coq/Valid.vo /verif/coq/Types.vo /verif/coq/Carry.vo Json.vo Forms.vo TypeStr.vo Proofs_Depth.vo
 Proofs_Types.vio: Proofs_Types.v /verif/coq/Base.vio /verif/coq/Layout.vio /verif/coq/LayoutInd.vio /verif/coq/Valid.vio /verif/coq/Types.vio /verif/coq/Carry.vio Json.vio Forms.vio TypeStr.vio Proofs_Depth.vio
 Proofs_Types.vos Proofs_Types.vok Proofs_Types.required_vos: Proofs_Types.v /verif/coq/Base.vos /verif/coq/Layout.vos /verif/coq/LayoutInd.vos /verif/coq/Valid.vos /verif/coq/Types.vos /verif/coq/Carry.vos Json.vos Forms.vos TypeStr.vos Proofs_Depth.vos
+Proofs_Typing.vo Proofs_Typing.glob Proofs_Typing.v.beautified Proofs_Typing.required_vo: Proofs_Typing.v /verif/coq/Base.vo /verif/coq/Layout.vo /verif/coq/LayoutInd.vo /verif/coq/Valid.vo /verif/coq/Types.vo Json.vo Forms.vo Typing.vo Proofs_Depth.vo
+Proofs_Typing.vio: Proofs_Typing.v /verif/coq/Base.vio /verif/coq/Layout.vio /verif/coq/LayoutInd.vio /verif/coq/Valid.vio /verif/coq/Types.vio Json.vio Forms.vio Typing.vio Proofs_Depth.vio
+Proofs_Typing.vos Proofs_Typing.vok Proofs_Typing.required_vos: Proofs_Typing.v /verif/coq/Base.vos /verif/coq/Layout.vos /verif/coq/LayoutInd.vos /verif/coq/Valid.vos /verif/coq/Types.vos Json.vos Forms.vos Typing.vos Proofs_Depth.vos
+Proofs_Json.vo Proofs_Json.glob Proofs_Json.v.beautified Proofs_Json.required_vo: Proofs_Json.v /verif/coq/Base.vo /verif/coq/Layout.vo Json.vo Forms.vo
+Proofs_Json.vio: Proofs_Json.v /verif/coq/Base.vio /verif/coq/Layout.vio Json.vio Forms.vio
+Proofs_Json.vos Proofs_Json.vok Proofs_Json.required_vos: Proofs_Json.v /verif/coq/Base.vos /verif/coq/Layout.vos Json.vos Forms.vos
+Proofs_Parse.vo Proofs_Parse.glob Proofs_Parse.v.beautified Proofs_Parse.required_vo: Proofs_Parse.v /verif/coq/Base.vo /verif/coq/Layout.vo Json.vo Forms.vo TypeStr.vo Proofs_Json.vo
+Proofs_Parse.vio: Proofs_Parse.v /verif/coq/Base.vio /verif/coq/Layout.vio Json.vio Forms.vio TypeStr.vio Proofs_Json.vio
+Proofs_Parse.vos Proofs_Parse.vok Proofs_Parse.required_vos: Proofs_Parse.v /verif/coq/Base.vos /verif/coq/Layout.vos Json.vos Forms.vos TypeStr.vos Proofs_Json.vos
+Examples_C17.vo Examples_C17.glob Examples_C17.v.beautified Examples_C17.required_vo: Examples_C17.v /verif/coq/Base.vo /verif/coq/Layout.vo /verif/coq/Valid.vo /verif/coq/Types.vo /verif/coq/Carry.vo /verif/coq/Proofs_C11.vo Json.vo Forms.vo TypeStr.vo Typing.vo Proofs_Depth.vo Proofs_Types.vo Proofs_Typing.vo Proofs_Json.vo Proofs_Parse.vo
+Examples_C17.vio: Examples_C17.v /verif/coq/Base.vio /verif/coq/Layout.vio /verif/coq/Valid.vio /verif/coq/Types.vio /verif/coq/Carry.vio /verif/coq/Proofs_C11.vio Json.vio Forms.vio TypeStr.vio Typing.vio Proofs_Depth.vio Proofs_Types.vio Proofs_Typing.vio Proofs_Json.vio Proofs_Parse.vio
+Examples_C17.vos Examples_C17.vok Examples_C17.required_vos: Examples_C17.v /verif/coq/Base.vos /verif/coq/Layout.vos /verif/coq/Valid.vos /verif/coq/Types.vos /verif/coq/Carry.vos /verif/coq/Proofs_C11.vos Json.vos Forms.vos TypeStr.vos Typing.vos Proofs_Depth.vos Proofs_Types.vos Proofs_Typing.vos Proofs_Json.vos Proofs_Parse.vos
+Props_C17.vo Props_C17.glob Props_C17.v.beautified Props_C17.required_vo: Props_C17.v /verif/coq/Base.vo /verif/coq/Layout.vo /verif/coq/Valid.vo /verif/coq/Types.vo /verif/coq/Carry.vo Json.vo Forms.vo TypeStr.vo Typing.vo Proofs_Depth.vo Proofs_Types.vo Proofs_Typing.vo Proofs_Json.vo Proofs_Parse.vo
+Props_C17.vio: Props_C17.v /verif/coq/Base.vio /verif/coq/Layout.vio /verif/coq/Valid.vio /verif/coq/Types.vio /verif/coq/Carry.vio Json.vio Forms.vio TypeStr.vio Typing.vio Proofs_Depth.vio Proofs_Types.vio Proofs_Typing.vio Proofs_Json.vio Proofs_Parse.vio
+Props_C17.vos Props_C17.vok Props_C17.required_vos: Props_C17.v /verif/coq/Base.vos /verif/coq/Layout.vos /verif/coq/Valid.vos /verif/coq/Types.vos /verif/coq/Carry.vos Json.vos Forms.vos TypeStr.vos Typing.vos Proofs_Depth.vos Proofs_Types.vos Proofs_Typing.vos Proofs_Json.vos Proofs_Parse.vos
 Extract_C17.vo Extract_C17.glob Extract_C17.v.beautified Extract_C17.required_vo: Extract_C17.v /verif/coq/Layout.vo /verif/coq/Valid.vo /verif/coq/Types.vo /verif/coq/Carry.vo Json.vo Forms.vo TypeStr.vo Typing.vo
 Extract_C17.vio: Extract_C17.v /verif/coq/Layout.vio /verif/coq/Valid.vio /verif/coq/Types.vio /verif/coq/Carry.vio Json.vio Forms.vio TypeStr.vio Typing.vio
 Extract_C17.vos Extract_C17.vok Extract_C17.required_vos: Extract_C17.v /verif/coq/Layout.vos /verif/coq/Valid.vos /verif/coq/Types.vos /verif/coq/Carry.vos Json.vos Forms.vos TypeStr.vos Typing.vos
